@@ -24,7 +24,8 @@ CONSTANTS MaxReq,      \* requests the application makes
           Grants,      \* set of <<n, ttl>> a LEASE frame may carry
           MaxLeases,   \* LEASE frames that arrive
           MaxClock,    \* time horizon
-          QSize        \* capacity of the request queue (0 = unbounded)
+          QSize,       \* capacity of the request queue (0 = unbounded)
+          AppActsOnHeld \* BOOLEAN: the application cancels / requests more on interactions whose request is still held back
 
 VARIABLES now,
           lease,       \* [max, ttl, at, ctr, epoch]  the current DefinedLease (epoch 0 = the initial zero lease)
@@ -32,13 +33,15 @@ VARIABLES now,
           sent,        \* history: <<rid, time, epoch>> in the order requests entered the send queue
           refused,     \* request ids whose call raised QueueFull
           nextRid,
-          leases       \* history: epoch -> [max, ttl, at]
-vars == <<now, lease, pending, sent, refused, nextRid, leases>>
+          leases,      \* history: epoch -> [max, ttl, at]
+          early        \* request ids whose CANCEL / REQUEST_N entered the send queue BEFORE their request frame (finding F27)
+vars == <<now, lease, pending, sent, refused, nextRid, leases, early>>
 
 Init == /\ now = 0
         /\ lease = [max |-> 0, ttl |-> MaxClock + 1, at |-> 0, ctr |-> 0, epoch |-> 0]
         /\ pending = <<>> /\ sent = <<>> /\ refused = {} /\ nextRid = 1
         /\ leases = <<>>
+        /\ early = {}
 
 Expired(l) == l.at + l.ttl <= now
 
@@ -56,7 +59,7 @@ Request ==
                   THEN /\ refused' = refused \cup {nextRid} /\ UNCHANGED <<pending, sent>>
                   ELSE /\ pending' = Append(pending, nextRid) /\ UNCHANGED <<sent, refused>>
     /\ nextRid' = nextRid + 1
-    /\ UNCHANGED <<now, leases>>
+    /\ UNCHANGED <<now, leases, early>>
 
 (* the release loop of handle_lease: (lease, pending, sent) -> fixpoint *)
 RECURSIVE Release(_, _, _)
@@ -72,12 +75,21 @@ LeaseArrives(g) ==
            r == Release(l0, pending, sent)
        IN /\ lease' = r[1] /\ pending' = r[2] /\ sent' = r[3]
           /\ leases' = Append(leases, [max |-> g[1], ttl |-> g[2], at |-> now])
-    /\ UNCHANGED <<now, refused, nextRid>>
+    /\ UNCHANGED <<now, refused, nextRid, early>>
 
 Tick == /\ now < MaxClock /\ now' = now + 1
-        /\ UNCHANGED <<lease, pending, sent, refused, nextRid, leases>>
+        /\ UNCHANGED <<lease, pending, sent, refused, nextRid, leases, early>>
 
-Next == Request \/ (\E g \in Grants : LeaseArrives(g)) \/ Tick
+(* AS IMPLEMENTED (open finding F27): StreamHandler.send_cancel / send_request_n call send_frame, which puts the frame into the
+   send queue at once - also when the stream's own request frame is still waiting for a lease in the request queue.  The frame
+   then reaches the wire before the request (the peer drops it), and the request is still released - and executed - later. *)
+AppActsOnHeldRequest(r) ==
+    /\ AppActsOnHeld
+    /\ \E i \in 1..Len(pending) : pending[i] = r
+    /\ early' = early \cup {r}
+    /\ UNCHANGED <<now, lease, pending, sent, refused, nextRid, leases>>
+
+Next == Request \/ (\E g \in Grants : LeaseArrives(g)) \/ Tick \/ (\E r \in 1..MaxReq : AppActsOnHeldRequest(r))
 Spec == Init /\ [][Next]_vars
 
 ----------------------------------------------------------------------------
@@ -100,6 +112,9 @@ NothingWaitsUnderUsableLease ==
 
 GrantsSmall == {<<0, 2>>, <<1, 1>>, <<2, 2>>, <<3, 1>>}
 GrantsWide == {<<0, 1>>, <<1, 1>>, <<1, 3>>, <<2, 2>>, <<3, 1>>, <<4, 4>>}
+
+(* C08 / C09: no frame of a stream precedes its request frame.  REFUTED for the implementation (Lease_f27.cfg, finding F27). *)
+NothingOvertakesItsRequest == early = {}
 
 TypeOK == /\ now \in 0..MaxClock /\ nextRid \in 1..(MaxReq + 1)
           /\ lease.epoch = Len(leases)
